@@ -200,13 +200,17 @@ def hasDup : List (Nat × Bytes) → Bool
   | [] => false
   | x :: xs => xs.any (fun y => y == x) || hasDup xs
 
+/-- would the pending label rows violate PRIMARY KEY (UploadID, RecordID, Name)? Rows already sent can
+only collide with pending rows of the same RecordID, so only those are looked at. -/
+def Tx.labelClash (t : Tx) : Bool :=
+  let lo := t.pendLab.foldl (fun m x => min m x.1) t.recordid
+  let sent := t.txLab.filter (fun y => lo ≤ y.1)
+  hasDup t.pendLab || t.pendLab.any (fun x => sent.any (fun y => y == x))
+
 /-- `Upload.flush`; `none` = the INSERT violated PRIMARY KEY (UploadID, RecordID, Name) -/
 def Tx.flush (t : Tx) : Option Tx :=
   let t1 := { t with txRec := t.txRec ++ t.pendRec, pendRec := [] }
-  -- rows already sent can only collide with pending rows of the same RecordID: look at those only
-  let lo := t.pendLab.foldl (fun m x => min m x.1) t.recordid
-  let sent := t.txLab.filter (fun y => lo ≤ y.1)
-  if hasDup t.pendLab || t.pendLab.any (fun x => sent.any (fun y => y == x)) then none
+  if t.labelClash then none
   else some { t1 with txLab := t.txLab ++ t.pendLab, pendLab := [], last := none }
 
 /-- `insertLabel` -/
